@@ -18,7 +18,7 @@ PARTIAL = {
     "C18_namespaces": "proved: for every script the documented (strict) semantics accepts, the formatter completes and yields at "
     "least one entry per action (C18_total_of_strict, C18_entries), and every script the differ generates is such a script "
     "(C18_old_formatter_total_on_differ_scripts, via C05_differ_script_accepted), for documents of any size and every good "
-    "matching. NOT proved: namespaced documents (outside the model; oracle stream only).",
+    "matching; the theorems hold for every assignment of step names to tags, which covers namespaced documents (model and code are compared on them, stream nsm). NOT modelled: the process-global prefix registration of lxml (oracle stream ns).",
 }
 LEAN_MODULES = ['XmlDiffModel.Props.C01', "XmlDiffModel.Props.C18"]
 SOURCES = ["formatting.XmlDiffFormatter", "patch.Patcher"]
@@ -27,7 +27,7 @@ RULE = (
     "with formatter=XmlDiffFormatter and xmldiff -f old complete and return at least one bracketed entry per action. Non-trivial = "
     "script with a move or an insert at position > 0 (the handlers that look siblings up); distinct by (L, R, options)."
 )
-ASSUMPTIONS = ["namespace-free documents in the model (namespaced documents: oracle stream only)"]
+ASSUMPTIONS = ["namespaced documents (stream nsm) are compared with the model as well: the step name of a Clark-notation tag is the prefix the working copy uses for its URI; prefix registration itself is outside the model"]
 FRESH = 2000
 
 
@@ -54,7 +54,15 @@ def _chunk(seed, lo, hi, extra):
             c["old"] = "err " + type(e).__name__
             c["exc"] = real.exc_sig(e)
         c["req"] = len(reqs)
-        reqs.append(f"old\t{FRESH}\t{xt.enc_tree(L)}\t{xt.enc_script(script)}")
+        nsq = ""
+        if getattr(L, "nsmap", None) or getattr(R, "nsmap", None):
+            u2p = {}
+            for pre, uri in (L.nsmap or {}).items():
+                u2p.setdefault(uri, pre)
+            for pre, uri in (R.nsmap or {}).items():
+                u2p.setdefault(uri, pre)
+            nsq = "ns\t" + "|".join(f"{u}={p_}" for u, p_ in sorted(u2p.items())) + "\t"
+        reqs.append(f"{nsq}old\t{FRESH}\t{xt.enc_tree(L)}\t{xt.enc_script(script)}")
     resp = core.run_driver(reqs)
     for c in cases:
         st.evaluations += 1
@@ -121,6 +129,7 @@ def run(tier, seed, intensify=False):
         k *= 3
     parts = core.pmap_chunks(_chunk, seed, 3000 * k, (tier, "main"))
     parts += core.pmap_chunks(_chunk, seed, 300 * k, (tier, "wide"))
+    parts += core.pmap_chunks(_chunk, seed, 600 * k, (tier, "nsm"))
     parts += core.pmap_chunks(_cli_chunk, seed, 100 * k, (tier, "cli"))
     ns = core.merge_all(core.pmap_chunks(cluster.run_ns_cases, seed, 800 * k, (tier, "ns")))
     ns.failures = [f for f in ns.failures if f["prop"] == "C18"]
